@@ -12,6 +12,10 @@ CLAIMED["C01"] = ("model_checking", "5 C01",
     "Assume-guarantee over the widget tree: each container/decoration class is executed symbolically with abstract children for unbounded sizes "
     "and options, the solver showing the rendered canvas has exactly the requested size on every path; leaves are discharged on symbolic text.",
     "z3 trusted; children assumed to satisfy the widget contract (proved separately for the bundled leaves within the text-length bounds).")
+CLAIMED["C16"] = ("model_checking", "5 C16",
+    "Inductive step: one list operation from an arbitrary valid focus on the real MonitoredFocusList, against a built-in list and the statement's focus rule; "
+    "the focus is a solver variable, indices/slice fields are enumerated through the solver with a coverage certificate.",
+    "z3 trusted; lists of up to 4 (quick) / 5 (thorough) distinct items, slice fields within [-n-2, n+2], steps within +-3.")
 NOT_YET = {}
 TECH = "bounded symbolic execution of the real urwid code (AST-lifted import of /repo) with z3 deciding every path obligation; counterexamples replayed on the un-lifted code"
 def main():
